@@ -219,6 +219,13 @@ class SyncEndpointDriver(_T2Driver):
                         ok = self._poll(endpoint, cap)
                         if not ok:
                             break
+                    # A zero timeout is a single poll: nothing says one call must drain the socket (DESIGN C11), so keep
+                    # polling while the socket still holds unread bytes; then one more poll, which must not produce anything.
+                    while ok and lib.rx_pipe.rx and len(self.out) <= cap:
+                        before = (len(lib.rx_pipe.rx), len(self.out))
+                        ok = self._poll(endpoint, cap)
+                        if (len(lib.rx_pipe.rx), len(self.out)) == before:
+                            break  # a poll that neither reads nor returns anything: the leftover is reported by pending()
                     if ok:
                         self.n_before_final = len(self.out)
                         ok = self._poll(endpoint, cap)  # nothing more may come out
@@ -272,7 +279,10 @@ class AsyncEndpointDriver(_T2Driver):
         world = self.world
         self._draw_mrs()
         gap = world.pick("gap", [1, 0, 3]) / 64.0
-        world.notes.update(gap=gap)
+        # data that arrives while nobody is waiting in recv()/recv_into() goes through the adapter's internal buffer:
+        head_start = world.choose("head_start", 3)  # chunks made visible before the first recv_packet(): none / the first / all
+        slow = world.choose("slow_receiver", 3) == 2  # the application takes 2/64 s between two recv_packet() calls
+        world.notes.update(gap=gap, head_start=head_start, slow_receiver=slow)
         net = SimNet(world)
         backend = SimAsyncIOBackend(net)
         world.FREE_ZERO_WAITS = 1 << 30  # type: ignore[misc]  # nothing here legitimately busy-loops: no virtual-CPU creep
@@ -296,12 +306,20 @@ class AsyncEndpointDriver(_T2Driver):
                         return False
                     else:
                         self._emit(("pkt", pkt))
+                        if slow:
+                            await asyncio.sleep(2 / 64)
                 self._emit(("crash", "Spin", None, "recv_packet() keeps returning packets"))
                 return False
 
+            rest = list(self.chunks)
+            for c in rest[: {0: 0, 1: 1, 2: len(rest)}[head_start]]:
+                peer.write(c)
+                ps.tx_pipe.deliver(len(c))
+                await asyncio.sleep(gap)
+            del rest[: {0: 0, 1: 1, 2: len(rest)}[head_start]]
             task = asyncio.get_running_loop().create_task(receiver(), name="c01-receiver")
             try:
-                for c in self.chunks:
+                for c in rest:
                     if task.done():
                         break
                     peer.write(c)
@@ -408,7 +426,7 @@ def run_roundtrip(world: World, family: str, path: Path) -> None:
 
     def ctx() -> str:
         return (
-            f"entry={entry.name} path={path.name} limit={limit} notes={ {k: world.notes[k] for k in ('size_hint', 'fill_mode', 'max_recv_size', 't2_mode', 'gap', 'retry_interval') if k in world.notes} } "
+            f"entry={entry.name} path={path.name} limit={limit} notes={ {k: world.notes[k] for k in ('size_hint', 'fill_mode', 'max_recv_size', 't2_mode', 'gap', 'head_start', 'slow_receiver', 'retry_interval') if k in world.notes} } "
             f"packets={_short(packets, 400)} stream({len(stream)})={_short(stream, 300)} bounds={bounds} chunks={[len(c) for c in chunks][:64]}"
         )
 
